@@ -10,12 +10,17 @@ def hx(s):
 NAMES = ["a", "b", "no-a"]
 LETTERS = ["a", "b", "x"]
 BADLETTERS = ["", "ab"]
-GROUPS = ["*", hx("g1"), hx("g2")]
-ODDGROUPS = [hx("__default"), "-"]
+# "A2" (upper case) sorts BEFORE the key "__default" of the default group in parser::groups_, "g1" after it
+GROUPS = ["*", hx("g1"), hx("A2")]
+ODDGROUPS = [hx("__default"), "-", "@", hx("0g"), hx("{}%s"), hx("G" * 40), hx("g2")]
+XNAMES = ["A", "1", "a" * 40, "\xc3\xa4", "{}", "%s", "a.b", "x-y"]          # special bytes, longer than any SSO buffer
+XLETTERS = ["%", "1", "\xe4", "{", "A"]
+XBADLETTERS = ["\xc3\xa4", "xyz"]
+XMETAVARS = ["%d{}", "M" * 70, "two words"]
 KINDS = "omt"
 ENVS = ["NITRO_VERIF_E1", "NITRO_VERIF_E2", ""]
 METAVARS = ["M", "N", ""]
-MOVES = ["MC", "MA", "MS"]
+MOVES = ["MC", "MA", "MS", "MV", "MW", "MB"]
 
 
 def D(g, k, n):
@@ -36,7 +41,7 @@ def small_alphabet():
     ops = [D(g, k, n) for g in ("*", hx("g1")) for k in KINDS for n in ("a", "b")]          # 12
     ops += [S(g, k, "a", "s", "x") for g in ("*", hx("g1")) for k in "ot"]                  # 4
     ops += [S("*", "t", "b", "s", "x"), S("*", "o", "b", "s", "a"), S("*", "o", "a", "s", "ab")]  # 3
-    ops += ["G:" + hx("g1"), "MC", "P"]                                                     # 3
+    ops += ["G:" + hx("A2"), D(hx("A2"), "t", "b"), "MC", "P"]                              # 4
     # references held by the caller: they bypass parser::group()
     ops += [H("HS", "*", "t", "a", "s", "x"), H("HS", "*", "t", "b", "s", "x"), H("HS", hx("g1"), "o", "a", "s", "x"),
             H("HD", "*", "t", "b", "s", "x"), H("HD", hx("g1"), "t", "b", "s", "x"), H("HD", hx("g1"), "o", "a")]   # 6
@@ -49,7 +54,13 @@ def large_alphabet():
     ops += [S("*", "o", "a", "s", c) for c in BADLETTERS] + [S("*", "t", "b", "s", "x")]    # 3
     ops += [S("*", k, "a", "e", e) for k in "ot" for e in ENVS]                             # 6
     ops += [S("*", "m", "a", "m", m) for m in METAVARS] + [S("*", k, "a", "d") for k in KINDS]  # 6
-    ops += ["G:" + g for g in (hx("g1"), hx("g2"), hx("__default"))] + MOVES + ["P"]        # 7
+    ops += ["G:" + g for g in (hx("g1"), hx("A2"), hx("__default"))] + MOVES + ["P"]        # 10
+    # the same operations in their other forms: description arguments, the default group requested explicitly,
+    # a group re-requested with a description, optional(), allow_reverse()
+    ops += [D("*", "O", "a"), D(hx("g1"), "T", "a"), D(hx("A2"), "M", "b"), D("@", "o", "a"), D("@", "t", "b"),
+            S("@", "t", "a", "s", "x"), "G:%s:%s" % (hx("g1"), hx("described")), "G:%s:%s" % (hx("A2"), hx("other")),
+            S("*", "o", "a", "o"), S(hx("g1"), "m", "a", "o"), S("*", "t", "a", "r"), S("*", "t", "b", "r"),
+            H("HD", hx("A2"), "t", "b", "s", "x"), H("HD", "*", "t", "a", "r"), H("HS", "*", "o", "a", "o")]   # 15
     ops += [H("HS", g, k, "a", "s", c) for g in ("*", hx("g1")) for k in "ot" for c in ("a", "x")]          # 8
     ops += [H("HS", "*", "o", "a", "d"), H("HS", "*", "t", "b", "s", "x")]                                   # 2
     ops += [H("HD", g, k, n) for g in ("*", hx("g1")) for k in "ot" for n in ("a", "b")]                    # 8
@@ -60,9 +71,9 @@ def large_alphabet():
 def random_op(rng, hist):
     """mostly aimed at what was declared before, so that re-declarations and conflicts are frequent"""
     r = rng.random()
-    g = rng.choice(GROUPS) if rng.random() < 0.93 else rng.choice(ODDGROUPS)
+    g = rng.choice(GROUPS) if rng.random() < 0.88 else rng.choice(ODDGROUPS)
     k = rng.choice(KINDS)
-    n = rng.choice(NAMES)
+    n = rng.choice(NAMES) if rng.random() < 0.9 else rng.choice(XNAMES)
     if hist and rng.random() < 0.5:
         g0, k0, n0 = rng.choice(hist)
         # same triple, or change exactly one coordinate
@@ -71,28 +82,34 @@ def random_op(rng, hist):
     if hist and rng.random() < 0.25:
         # through a held reference: mostly to something handed out before
         f = rng.choice(["s", "s", "s", "e", "m", "d"])
-        a = None if f == "d" else (rng.choice(LETTERS + BADLETTERS[:1]) if f == "s" else rng.choice(ENVS) if f == "e" else rng.choice(METAVARS))
+        a = None if f == "d" else (rng.choice(LETTERS + BADLETTERS[:1] + XLETTERS[:2]) if f == "s" else rng.choice(ENVS) if f == "e" else rng.choice(METAVARS + XMETAVARS[:1]))
         if rng.random() < 0.5:
-            return H("HS", g, k, n, f, a)
+            return H("HS", g, k, n, f, a) if k in "tT" or rng.random() < 0.85 else H("HS", g, k, n, "o")
         hist.append((g, k, n))
-        return H("HD", g, k, n, f, a) if rng.random() < 0.6 else H("HD", g, k, n)
+        kk = k.upper() if rng.random() < 0.2 else k
+        return H("HD", g, kk, n, f, a) if rng.random() < 0.6 else H("HD", g, kk, n)
+    if rng.random() < 0.2:
+        k = k.upper()                      # the same call with a description argument
     if r < 0.40:
         hist.append((g, k, n))
         return D(g, k, n)
     if r < 0.65:
         hist.append((g, k, n))
-        return S(g, k, n, "s", rng.choice(LETTERS) if rng.random() < 0.85 else rng.choice(BADLETTERS))
+        c = rng.random()
+        return S(g, k, n, "s", rng.choice(LETTERS) if c < 0.75 else rng.choice(BADLETTERS + XBADLETTERS) if c < 0.87 else rng.choice(XLETTERS))
     if r < 0.72:
         hist.append((g, k, n))
         return S(g, k, n, "e", rng.choice(ENVS))
     if r < 0.78:
         hist.append((g, k, n))
-        return S(g, k, n, "m", rng.choice(METAVARS))
+        return S(g, k, n, "m", rng.choice(METAVARS) if rng.random() < 0.8 else rng.choice(XMETAVARS))
     if r < 0.86:
         hist.append((g, k, n))
-        return S(g, k, n, "d")
+        c = rng.random()
+        return S(g, k, n, "d") if c < 0.7 else S(g, k, n, "r") if k in "tT" else S(g, k, n, "o")
     if r < 0.90:
-        return "G:" + (rng.choice(GROUPS[1:]) if rng.random() < 0.8 else rng.choice(ODDGROUPS))
+        gg = rng.choice(GROUPS[1:]) if rng.random() < 0.8 else rng.choice([x for x in ODDGROUPS if x != "@"])
+        return "G:" + gg + (":" + hx(rng.choice(["d1", "another description"])) if rng.random() < 0.4 else "")
     if r < 0.95:
         return rng.choice(MOVES)
     return "P"
@@ -131,11 +148,15 @@ class C13(Check):
                   "ambiguous) is about parsing, not declarations: the declaration API accepts such declarations, the model does too, and the "
                   "name probe skips such names (printed K1); resolution theorems are about the exact names --n and letters -c. "
                   "Names that cannot be spelled (empty, containing '=', starting with '-') are out of scope of the probes; "
-                  "allow_reverse()/optional() are not operations of the model")
-    rule = ("operation sequences over 3 names x 3 letters (+ malformed short names) x 3 groups (+ \"__default\" and \"\") x 3 kinds: "
+                  "allow_reverse() changes no declaration-time state and is the plain declaration in the model; special bytes (>= 0x80, "
+                  "'{}', '%', 40-byte names) occur in the random stream only; NUL bytes, blanks and line breaks in names are not generated "
+                  "(argv cannot carry NUL; the usage-order read-back splits at blanks)")
+    rule = ("operation sequences over 3 names x 3 letters (+ malformed short names, special bytes, 40-byte names) x 3 groups (one sorting "
+            "before and one after the default group's key, + \"__default\", \"\", digits, 40 bytes) x 3 kinds, each call in its forms (with/without "
+            "description, parser.x / parser.group().x / parser.group(g).x / held group&), six ways of moving the parser, both parse overloads: "
             "plus operations through references the caller holds (HD: declaration through a group& handed out earlier, HS: setter through "
             "an option& handed out earlier; neither calls parser::group() again): "
-            "exhaustive to depth 2 over a 94-operation alphabet and depth 3 over a 28-operation alphabet (thorough: depth 3 and 4), every "
+            "exhaustive to depth 2 over a 112-operation alphabet and depth 3 over a 29-operation alphabet (thorough: depth 3 and 4), every "
             "depth-2 sequence again with a move at every position, a directed stream 'declare, parse, clash through a held reference, "
             "parse' over kinds x groups with a move (or none) at every gap, plus random sequences of <= 6 operations from VERIF_SEED aimed at earlier "
             "declarations (same triple or one coordinate changed); non-trivial = the case has a collision: a developer error, an identity "
@@ -177,6 +198,15 @@ class C13(Check):
                         yield " ".join(seq), "held-after-parse"
                         # the same with the clash before the first parse, and with the fluent form after it
                         yield " ".join(first + second + cl + ([m2] if m2 else []) + ["P"]), "held-before-parse"
+        # declarations after a FAILED parse (refused for a shared letter / user error for a missing value), then parse again
+        for g in ("*", hx("g1"), hx("A2")):
+            for k in KINDS:
+                for m in [None] + MOVES:
+                    mv = [m] if m else []
+                    for later in ([D(g, k, "no-a")], [S(g, k, "no-a", "s", "x")], [S(g, k, "no-a", "s", "b")], [H("HD", g, k, "no-a", "s", "x")],
+                                  [H("HS", "*", "t", "a", "s", "b")], [S("*", "o", "b", "d"), S(g, k, "no-a", "s", "b")]):
+                        yield " ".join([S("*", "t", "a", "s", "x"), S(g, "m", "b", "s", "x"), "P"] + mv + later + ["P"]), "after-failed-parse"
+                        yield " ".join([S("*", "t", "a", "s", "x"), D("*", "o", "b"), "P"] + mv + later + ["P"]), "after-failed-parse"
         if tier == "thorough":
             for t in itertools.product(large, repeat=3):
                 yield " ".join(t), "exh-large-3"
